@@ -139,13 +139,18 @@ Enumerate(s, r) ==
          ELSE [s |-> [pc |-> "yielded", c |-> s.c], eff |-> Yield(<<s.c, r.v>>)]
     [] s.pc = "yielded" -> [s |-> [pc |-> "got", c |-> s.c + 1], eff |-> Pull(1)]
 
-\* builtins.iter(callable, sentinel): the callable hands out the data items, then an
-\* item equal to the sentinel; any data item equal (by k) to the sentinel stops earlier
+\* builtins.iter(callable, sentinel): the callable hands out the data items, then a
+\* terminator.  par.sent = "eq": the terminator is another item that equals the sentinel (and
+\* any data item equal by k to the sentinel stops earlier); par.sent = "ident": the terminator
+\* is the sentinel object itself, whose equality is not reflexive (like NaN) -- the standard
+\* library still stops, because it compares by identity first.
 SentinelKey == 2
+NaNKey == 7
+IsSentinel(x) == (x.s = 0 /\ x.p = 0) \/ (cfg.par.sent = "eq" /\ x.k = SentinelKey)
 IterCall(s, r) ==
   CASE s.pc \in {"init", "yielded"} -> [s |-> To("called"), eff |-> Call("subject", <<>>)]
     [] s.pc = "called" ->
-         IF r.v.k = SentinelKey THEN [s |-> To("end"), eff |-> End]
+         IF IsSentinel(r.v) THEN [s |-> To("end"), eff |-> End]
          ELSE [s |-> To("yielded"), eff |-> Yield(r.v)]
 
 \* itertools.accumulate(it, func=add, *, initial=)   [accumulate_next]
@@ -575,7 +580,7 @@ ConfigsOf(t) ==
     [] t = "enumerate" ->
          {[tool |-> t, par |-> [start |-> c], data |-> d] : c \in {0, 5}, d \in DataSets(1, K1)}
     [] t = "iter" ->
-         {[tool |-> t, par |-> NoPar, data |-> d] : d \in DataSets(1, K12)}
+         {[tool |-> t, par |-> [sent |-> v], data |-> d] : v \in {"eq", "ident"}, d \in DataSets(1, K12)}
     [] t = "accumulate" ->
          {[tool |-> t, par |-> [init |-> b, fn |-> f], data |-> d] :
              b \in BOOLEAN, f \in {"func", "add"}, d \in DataSets(1, K1)}
@@ -717,6 +722,7 @@ ToolStep ==
                   /\ pos' = [pos EXCEPT ![1] = @ + 1]
                   /\ reply' = [k |-> "ret",
                                v |-> IF pos[1] < Len(cfg.data[1]) THEN Item(1, pos[1] + 1)
+                                     ELSE IF cfg.par.sent = "ident" THEN [s |-> 0, p |-> 0, k |-> NaNKey]
                                      ELSE [s |-> 1, p |-> pos[1] + 1, k |-> SentinelKey]]
                   /\ log' = Ev([ev |-> "call", f |-> eff.f, a |-> eff.a, res |-> "ret"])
                   /\ nuse' = nuse + 1
